@@ -189,6 +189,7 @@ def cmd_check(tier, prop):
     t_start = time.monotonic()
     prof = PROFILES[prop]
     seed = int(os.environ.get("VERIF_SEED", "0") or 0)
+    os.environ["UNYTSIM_TIER"] = tier  # read by the generators (e.g. share of real new-interpreter restarts in C11)
     core.import_unyt()
     lines = []
 
